@@ -111,6 +111,7 @@ type fieldD struct {
 	Dep      string // key the optional option depends on (optDep / optNotDep)
 	HasDef   bool
 	Def      string
+	DefList  []string // slice fields: the elements of default=[a,b,c] (Def holds the bracketed text)
 	Rng      *rangeD
 	Options  []string
 	OptBrk   bool   // options=[a,b] instead of options=a|b
@@ -121,6 +122,60 @@ type fieldD struct {
 type structD struct {
 	Fields []*fieldD
 	typ    reflect.Type
+	refLvl int // cached refLevel()+1
+}
+
+// refLevel says which reference-typed parts a filled target of this type can have: 0 none
+// (scalars and nested structs only), 1 pointers only, 2 slices or maps.
+func (s *structD) refLevel() int {
+	if s.refLvl == 0 {
+		lvl := 0
+		var walkF func(f *fieldD)
+		walkS := func(sd *structD) {
+			for _, f := range sd.Fields {
+				walkF(f)
+			}
+		}
+		walkF = func(f *fieldD) {
+			if f.Ptr > 0 && lvl < 1 {
+				lvl = 1
+			}
+			if f.Kind == reflect.Slice || f.Kind == reflect.Map {
+				lvl = 2
+			}
+			if f.Sub != nil {
+				walkS(f.Sub)
+			}
+			if f.Elem != nil {
+				walkF(f.Elem)
+			}
+		}
+		walkS(s)
+		s.refLvl = lvl + 1
+	}
+	return s.refLvl - 1
+}
+
+// withSrc returns a deep copy of the descriptor declared under another tag key (the tag text
+// after the key stays the same, so go-zero's tag cache is shared between the copies).
+func (s *structD) withSrc(src string) *structD {
+	out := &structD{}
+	for _, f := range s.Fields {
+		out.Fields = append(out.Fields, f.withSrc(src))
+	}
+	return out
+}
+
+func (f *fieldD) withSrc(src string) *fieldD {
+	c := *f
+	c.Src = src
+	if f.Elem != nil {
+		c.Elem = f.Elem.withSrc(src)
+	}
+	if f.Sub != nil {
+		c.Sub = f.Sub.withSrc(src)
+	}
+	return &c
 }
 
 func (f *fieldD) key() string {
